@@ -970,3 +970,26 @@ def walk_depth(w, repo):
     if dev:
         return True, "; ".join(dev[:2]) + (" (+%d more)" % (len(dev) - 2) if len(dev) > 2 else "")
     return None, "150 depth-range configurations behave like the reference natively"
+
+
+def operand_cli(w, repo):
+    """exact: run the real find on the witness tokens (plus neighbours) over one file; a sentence the reference rejects must be
+    refused (non-zero status, nothing printed), one it accepts must run"""
+    if not build(repo):
+        return None, "build failed"
+    toks = w.get("tokens")
+    cases = ([toks] if toks else []) + [["-size", "x5k"], ["-size", "5k"], ["-size", "5kk"], ["-newermmx", "ref"], ["-newermm", "ref"], ["-inum", "x5"], ["-type", "ff"], ["-mtime", "+"]]
+    want_of = {("-size", "5k"): True, ("-newermm", "ref"): True}
+    dev = []
+    with Sandbox() as d:
+        open(os.path.join(d, "f"), "w").close()
+        open(os.path.join(d, "ref"), "w").close()
+        for i, t in enumerate(cases):
+            want = ("accepts" in w.get("what", "").split("reference")[-1]) if (i == 0 and toks) else want_of.get(tuple(t), False)
+            rc, out, err = run([find_bin(repo), "f"] + list(t), cwd=d)
+            ok = (rc == 0) if want else (rc != 0 and out == b"")
+            if not ok:
+                dev.append("find f %s: rc=%d stdout=%r, reference %s" % (" ".join(repr(x) for x in t), rc, out, "accepts" if want else "rejects"))
+    if dev:
+        return True, "; ".join(dev[:3])
+    return (False if toks else None), "the witness and %d neighbouring command lines behave like the reference natively" % (len(cases) - 1)
